@@ -562,7 +562,7 @@ func (g *gen) program() {
 		g.abort = "panic"
 	}
 
-	ns := g.pick(3)
+	ns := g.pick(5) // up to four struct types, so that values nest three and four levels deep
 	for i := 0; i < ns; i++ {
 		g.structDecl()
 	}
@@ -622,8 +622,12 @@ func (g *gen) structDecl() {
 	g.ind++
 	for i := 0; i < nf; i++ {
 		var t *typ
-		if len(g.structs) > 0 && g.chance(15) {
-			t = g.structs[g.pick(len(g.structs))].t
+		if len(g.structs) > 0 && (g.chance(15) || i == 0 && g.chance(55)) {
+			// mostly the struct declared last, so that chains T4{T3{T2{T1}}} are common
+			t = g.structs[len(g.structs)-1].t
+			if g.chance(25) {
+				t = g.structs[g.pick(len(g.structs))].t
+			}
 			g.feat("struct-nested")
 		} else {
 			t = g.scalarType()
@@ -650,7 +654,7 @@ func scalarFields(sd *structDef, t *typ, prefix string, depth int) []field {
 	var out []field
 	for _, f := range sd.fields {
 		if f.t.k == kStruct {
-			if depth < 2 {
+			if depth < 4 {
 				out = append(out, scalarFields(f.t.sd, t, prefix+"."+f.name, depth+1)...)
 			}
 			continue
